@@ -174,10 +174,28 @@ fn triage_arg(r: &mut Rng, d: &Dom, prev: W) -> W {
         6 => special_hi(r),
         7 => crate::pools::published_const(r),
         8 => {
-            if r.coin() {
-                crate::pools::round_integer(r)
-            } else {
-                prev
+            match r.below(3) {
+                0 => crate::pools::round_integer(r),
+                1 => prev,
+                _ => {
+                    // the result of another function applied to the previous argument (chains of calls)
+                    let p = t(prev);
+                    let k = r.below(8);
+                    let y = crate::ctx::guard(|| {
+                        w(match k {
+                            0 => p.exp(),
+                            1 => p.abs().ln(),
+                            2 => p.abs().sqrt(),
+                            3 => p.sin(),
+                            4 => p.atan(),
+                            5 => p.recip(),
+                            6 => p * p,
+                            _ => p.tanh(),
+                        })
+                    })
+                    .unwrap_or(prev);
+                    if valid_ref(y.0, y.1) && y.0.is_finite() && y.0 != 0.0 { y } else { prev }
+                }
             }
         }
         _ => {
